@@ -26,6 +26,7 @@ RULE = ('case = generated pair of configurations (every suite, PSK / RSA per dir
         'harness error. Non-trivial = the history contains a failure path (authentication failure, error reply, kernel refusal, '
         'hostile datagram, internal error) or a rekey; distinct by (fault kind, suite, auth methods, op kinds).')
 ASSUMPTIONS = [
+    'three of four cases run with the root logger at INFO (the daemon\'s default), one of four at DEBUG as positive control',
     'secrets of at least 8 octets are searched; shorter strings would match by chance',
     'tracebacks printed to stderr by the daemon are not log records and are not searched',
 ]
@@ -90,7 +91,10 @@ def run_case(case):
     cap = Capture()
     old_level = root.level
     root.addHandler(cap)
-    root.setLevel(logging.DEBUG)
+    # the daemon's default level is INFO (pyikev2.py; --verbose gives DEBUG).  Most cases run at the default level, as the
+    # statement says; every fourth runs at DEBUG, which is also the positive control of the search
+    debug_run = bool(case.get('debug'))
+    root.setLevel(logging.DEBUG if debug_run else logging.INFO)
     try:
         s = SM.Sim(cfg, monitors=[])
         apply_auth_fault(s, cfg, case.get('auth_fault'))
@@ -155,7 +159,8 @@ def run_case(case):
     info = {'n_secrets': len(secrets), 'debug_hits': hits_debug, 'records_hi': sum(1 for lv, _ in cap.records if lv >= logging.INFO),
             'records_lo': sum(1 for lv, _ in cap.records if lv < logging.INFO), 'keyed': est,
             'warnings': sum(1 for lv, _ in cap.records if lv >= logging.WARNING)}
-    if len(ob.sessions) > 0 and hits_debug == 0:
+    info['debug_run'] = debug_run
+    if debug_run and len(ob.sessions) > 0 and hits_debug == 0:
         raise HarnessError('C20 positive control failed: key material was derived but the search finds none of it in the DEBUG '
                            'records (monitor blind)')
     return fails, info, s
@@ -164,7 +169,8 @@ def run_case(case):
 def body(case, stats):
     fails, info, s = run_case(case)
     cfg = case['cfg']
-    kl = ['auth-fault:' + str(case.get('auth_fault')), 'auth:' + cfg['auth_a'] + '/' + cfg['auth_b']]
+    kl = ['auth-fault:' + str(case.get('auth_fault')), 'auth:' + cfg['auth_a'] + '/' + cfg['auth_b'],
+          'level:DEBUG(control)' if info.get('debug_run') else 'level:INFO(default)']
     for k in s.counters:
         if k.startswith(('rewrite:', 'op:kfault', 'op:inject', 'op:corrupt')):
             kl.append(k.split(':')[0] + ':' + k.split(':')[1])
@@ -213,7 +219,7 @@ def cases(draw):
         st.builds(lambda s_, k, m: ['hostile', s_, k, m], st.sampled_from(['a', 'b']), st.integers(0, 20),
                   st.lists(st.tuples(st.sampled_from(['flip', 'set']), st.integers(0, 400), st.integers(0, 255)).map(list), max_size=2)))
     ops = [['acquire', first, 0, 1]] + draw(st.lists(st.one_of(trig, deliver, deliver, deliver, others, others), min_size=4, max_size=30))
-    return {'cfg': cfg, 'auth_fault': af, 'ops': ops}
+    return {'cfg': cfg, 'auth_fault': af, 'ops': ops, 'debug': draw(st.integers(0, 3)) == 0}
 
 
 def worker(task):
